@@ -11,7 +11,7 @@ import (
 )
 
 func init() {
-	register("C07", "Structural clauses of the receiver's side of the wire protocol, decided on all paths of the receive loop and the request callback: the receiver's id counter advances by one on every loop iteration that handled a STAT carrying a stat and on no other (so it equals the sender's running index whatever the stream contains), ids are registered pre-increment only for selected regular files, a request is issued exactly once per path under one lock region with the pipe registered before REQ is sent, DATA payloads are written synchronously into non-retaining sinks (no-retain analysis over all VTA targets), FIN is sent only after diff and writers completed, and end of stream before FIN is an error. The equality that decides whether an existing entry is requested again compares each stat field of one side with the same field of the other side. Does not decide behaviour for every chunking/interleaving nor that the requested set is exactly the needed set.", runC07)
+	register("C07", "Structural clauses of the receiver's side of the wire protocol, decided on all paths of the receive loop and the request callback: the receiver's id counter advances by one on every loop iteration that handled a STAT carrying a stat and on no other (so it equals the sender's running index whatever the stream contains), ids are registered pre-increment only for selected regular files, a request is issued exactly once per path under one lock region with the pipe registered before REQ is sent, DATA payloads are written synchronously into non-retaining sinks (no-retain analysis over all VTA targets), FIN is sent only after diff and writers completed, and end of stream before FIN is an error. The equality that decides whether an existing entry is requested again compares each stat field of one side with the same field of the other side. When the destination already has an entry at a path, what is received is written into a new entry that is renamed into place, never into the old file (whose tail would survive). Does not decide behaviour for every chunking/interleaving nor that the requested set is exactly the needed set.", runC07)
 }
 
 func runC07(c *Ctx) {
@@ -40,6 +40,82 @@ func runC07(c *Ctx) {
 	// equality that decides whether an entry is requested compares each stat
 	// field of one side with the same field of the other (shared with C02)
 	r02_1(c, "R07.11")
+	r07_12(c, "R07.12")
+}
+
+// R07.12: what is stored under a path is what was received for it.
+//
+// The file writer opens without O_TRUNC and writes from offset 0: that is the
+// whole content only because the file it writes into was created empty a
+// moment ago, under a temporary name when the destination already has an
+// entry at that path. With an old entry found by Lstat, no success return is
+// reachable after a creation call without the checked rename of what was
+// created onto the destination (re-using the old file keeps its tail).
+func r07_12(c *Ctx, rule string) {
+	c.R.Rule(rule, "DiskWriter.HandleChange: when Lstat found an entry at the destination path, every creation call is followed by a checked renameFile before any success return (the new entry is built aside and moved into place, never written into the old one)")
+	hc := c.Fn(rule, "fsutil.(*DiskWriter).HandleChange")
+	if hc == nil {
+		return
+	}
+	var lstat ssa.CallInstruction
+	for _, call := range c.P.CallsTo(hc, "os.Lstat") {
+		lstat = call
+	}
+	if lstat == nil {
+		c.R.Missing(rule, "os.Lstat of the destination path in HandleChange")
+		return
+	}
+	key, _, has := c.errValueOf(lstat)
+	if !has {
+		c.R.Undecided(rule, c.name(hc)+"/old-entry-test", c.pos(lstat), "the error result of os.Lstat is not read in a shape this rule interprets")
+		return
+	}
+	creates := map[ssa.Instruction]bool{}
+	for _, call := range c.P.CallsTo(hc, hcCreates...) {
+		creates[call] = true
+	}
+	n := len(creates)
+	// explored from the entry, so that what the function remembers about the
+	// Lstat (its `rename` flag) is known where the flag is tested
+	const created = "u:created"
+	ex := c.explorer(hc)
+	ex.Assume = map[string]bool{"(" + key + "==nil)": true}
+	// (a creation that failed made nothing: the EEXIST retry of Mkdir is not a success after a creation)
+	for call := range creates {
+		if k2, _, has2 := c.errValueOf(call.(ssa.CallInstruction)); has2 {
+			ex.Assume["("+k2+"==nil)"] = true
+		}
+	}
+	var first ssa.Instruction
+	ex.Barrier = func(in ssa.Instruction, st *eng.State) bool {
+		if c.P.IsCallTo(in, "fsutil.renameFile") {
+			return true
+		}
+		if creates[in] {
+			st.Facts[created] = true
+			first = in
+		}
+		return false
+	}
+	ex.Target = func(in ssa.Instruction, st *eng.State) bool {
+		return st.Facts[created] && ex.IsSuccessReturn(in, st)
+	}
+	ex.StopAtTarget = true
+	hits := ex.Run()
+	con := c.name(hc) + "/old-entry-replaced-by-rename"
+	switch {
+	case ex.Exhausted:
+		c.R.Undecided(rule, con, c.P.Pos(hc.Pos()), "state limit")
+	case len(hits) > 0:
+		c.R.Fail(rule, con, c.pos(hits[0].Instr), "with an old entry at the destination path (Lstat succeeded) a success return is reachable after a creation call without renameFile: the new entry was made at the destination itself - a regular file is then written into the old file from offset 0 without truncation and the old tail survives; path "+eng.BlockTrace(hc, hits[0].Trace))
+	default:
+		p := c.P.Pos(hc.Pos())
+		if first != nil {
+			p = c.pos(first)
+		}
+		c.R.OK(rule, con, p, "with an old entry present every success return after a creation call passes renameFile")
+	}
+	c.R.Floor(rule, "creation calls in HandleChange", n, 5)
 }
 
 // recvLoop returns the receive-loop literal of receiver.run.
